@@ -63,8 +63,11 @@ of the `*Handle`s currently owned by callers; `forced` (ghost) records that `Clo
 `dropped` (ghost) lists the delFuncs handed to a `Delete` that found the cache closed (`Cache.Delete` then returns
 `false` without ever calling them); `dead` (ghost) holds the nodes that `mBucket.delete` removed from their
 bucket — the Go objects live on while some thread still has a pointer to them: `value` is nil, `delFuncs` is what
-the code leaves there (it runs them but does not clear the slice); `stale` (ghost) records that a
-`Node.callFinalizer` reached such a removed node. -/
+the code leaves there; `stale` (ghost) records that a `Node.callFinalizer` reached such a removed node and ran
+delFuncs that had run before.  `clearDel` is configuration, not state: `mBucket.delete` takes the delFuncs out
+of the node (`delFuncs := n.delFuncs; n.delFuncs = nil` under `n.mu`) before it calls them — the repaired code,
+`Gen.cacheDeleteClearsDelFuncs`; with `false` it is the code before that repair, which ran `n.delFuncs` and left
+them in place. -/
 structure Shared where
   nodes : List Node
   closed : Bool
@@ -81,6 +84,7 @@ structure Shared where
   dropped : List Nat
   dead : List Node
   stale : Bool
+  clearDel : Bool
   deriving DecidableEq, Repr, Inhabited
 
 inductive Call
@@ -323,7 +327,9 @@ def execDelz (s : Shared) (k : Key) : Res :=
   | some n =>
     if n.ref = 0 then
       some ({ s with nodes := eraseId s.nodes n.id, statSize := s.statSize - n.size,
-                     statNodes := s.statNodes - 1, dead := { n with value := none } :: s.dead }, [],
+                     statNodes := s.statNodes - 1,
+                     dead := { n with value := none,
+                                      delFuncs := if s.clearDel then [] else n.delFuncs } :: s.dead }, [],
             finEvents n false)
     else some (s, [], [])
 
@@ -335,12 +341,13 @@ def execUnref (s : Shared) (id : Nat) (ext : Bool) : Res :=
       if n.ref - 1 = 0 then (if ext then [.extz id n.key] else [.delz n.key]) else [], [])
 
 /-- `Node.callFinalizer` through a stale pointer, to a node that `mBucket.delete` removed meanwhile: its value is
-nil already, but its `delFuncs` — which `mBucket.delete` ran and did not clear — run a second time. -/
+nil already; whatever `mBucket.delete` left in `delFuncs` (nothing in the repaired code, the delFuncs it had just
+run before the repair) runs — a second time. -/
 def execFinStale (s : Shared) (id : Nat) (forced : Bool) : Res :=
   match findId s.dead id with
   | none => some ({ s with bug := true }, [], [])
   | some n =>
-    some ({ s with bug := true, stale := true,
+    some ({ s with bug := true, stale := s.stale || !n.delFuncs.isEmpty,
                    dead := upd s.dead id fun n => { n with delFuncs := [] } }, [],
       n.delFuncs.map fun d => Ev.delf d (some n.id) forced)
 
@@ -395,11 +402,15 @@ def startCall : Call → List Instr
   | .release id => [.relH id]
   | c => [.enter c]
 
-/-- `cache.NewCache(cache.NewLRU(capacity))`. -/
-def Shared.new (capacity : Nat) : Shared :=
+/-- `cache.NewCache(cache.NewLRU(capacity))`, for either version of `mBucket.delete` (`clearDel`). -/
+def Shared.newCfg (clearDel : Bool) (capacity : Nat) : Shared :=
   { nodes := [], closed := false, rlock := 0, lru := { capacity := capacity, used := 0, recent := [] },
     nextId := 0, nextVal := 0, nextDel := 0, statNodes := 0, statSize := 0, handles := [], bug := false,
-    forced := false, dropped := [], dead := [], stale := false }
+    forced := false, dropped := [], dead := [], stale := false, clearDel := clearDel }
+
+/-- `cache.NewCache(cache.NewLRU(capacity))` of the code as it is (`Gen.cacheDeleteClearsDelFuncs` is read off the
+source by `tools/extract`). -/
+def Shared.new (capacity : Nat) : Shared := Shared.newCfg Gen.cacheDeleteClearsDelFuncs capacity
 
 /-! ## Sequential API: one thread, each call run to completion -/
 
@@ -428,8 +439,11 @@ structure Sys where
   log : List Ev
   deriving DecidableEq, Repr, Inhabited
 
-def Sys.init (capacity nthreads : Nat) : Sys :=
-  { sh := Shared.new capacity, threads := List.replicate nthreads [], log := [] }
+def Sys.initCfg (clearDel : Bool) (capacity nthreads : Nat) : Sys :=
+  { sh := Shared.newCfg clearDel capacity, threads := List.replicate nthreads [], log := [] }
+
+/-- The initial state for the code as it is. -/
+def Sys.init (capacity nthreads : Nat) : Sys := Sys.initCfg Gen.cacheDeleteClearsDelFuncs capacity nthreads
 
 inductive Act
   | call (t : Nat) (c : Call)
@@ -496,7 +510,7 @@ def runSched (guarded : Bool) : Sys → List Act → Option Sys
     | none => none
 
 inductive Reachable (guarded : Bool) : Sys → Prop
-  | init (capacity nthreads : Nat) : Reachable guarded (Sys.init capacity nthreads)
+  | init (clearDel : Bool) (capacity nthreads : Nat) : Reachable guarded (Sys.initCfg clearDel capacity nthreads)
   | step {s s' : Sys} (a : Act) : Reachable guarded s → sysStep guarded s a = some s' → Reachable guarded s'
 
 end GoLevel.CacheM
